@@ -3,12 +3,12 @@ module github.com/hashicorp/go-bexpr
 go 1.18
 
 require (
+	github.com/davecgh/go-spew v1.1.1
 	github.com/mitchellh/pointerstructure v1.2.1
 	github.com/stretchr/testify v1.8.2
 )
 
 require (
-	github.com/davecgh/go-spew v1.1.1 // indirect
 	github.com/mitchellh/mapstructure v1.4.1 // indirect
 	github.com/pmezard/go-difflib v1.0.0 // indirect
 	gopkg.in/yaml.v3 v3.0.1 // indirect
